@@ -142,7 +142,11 @@ class Operator:
         from kopf._core.engines import indexing
         run, spec = self.run, self.spec
         sim = run.sim
-        self.loop = sim.new_loop(self.actor, skew=spec.get('skew', 0.0))
+        skews = spec.get('skews') or []
+        skew = float(skews[self.incarnation - 1]) if self.incarnation - 1 < len(skews) else float(spec.get('skew', 0.0))
+        if skew:
+            sim.count('fault.clock-skew')
+        self.loop = sim.new_loop(self.actor, skew=skew)
         self.t_start = sim.now
         self.registry = registries.OperatorRegistry()
         self.settings = build_settings(spec.get('settings', {}))
